@@ -213,7 +213,7 @@ type Resp struct {
 	Returned bool // handler returned
 	Aborted  bool // client aborted
 	// WindUp: abandoned by the harness when the run was wound up (every client vanishes), not by the client's script
-	WindUp bool
+	WindUp   bool
 	ByApp    bool // served by the application's default handler
 	T0, T1   time.Duration
 	SeqWH    int // event seq at first WriteHeader
